@@ -616,6 +616,8 @@ var notDSL = []string{
 	"func g(m dsl.Matcher) { f := func(f func(dsl.Var) bool, v dsl.Var) bool { return f(v) }; p := func(v dsl.Var) bool { return v.Pure }; m.Match(`$x + $y`).Where(f(p, m[`x`])).Report(`x`) }",
 	"func g(m dsl.Matcher) { f := func(pred func(dsl.Var) bool, v dsl.Var) bool { return pred(v) }; m.Match(`$x + $y`).Where(f(f, m[`x`])).Report(`x`) }",
 	"func g(m dsl.Matcher) { f := func(pred func(dsl.Var) bool, v dsl.Var) bool { return pred(v) }; m.Match(`$x + $y`).Where(f(nil, m[`x`])).Report(`x`) }",
+	"func g(m dsl.Matcher) { a, b := func(v dsl.Var) bool { return v.Pure }, 1; _ = b; m.Match(`$x + $y`).Where(a(m[`x`])).Report(`x`) }",
+	"func g(m dsl.Matcher) { a, b := 1, 2; _, _ = a, b; m.Match(`$x + $y`).Report(`x`) }",
 	// functions without a body, init functions that do something else
 	"func nobody(n int) int\nfunc g(m dsl.Matcher) { m.Match(`$x + $y`).Report(`x`) }",
 	"func g(m dsl.Matcher)",
